@@ -28,7 +28,7 @@ package httpp
 // Bearer header, and otherwise the Basic credentials, exactly.
 
 //@ func Credentials
-//@   property C34
+//@   property C34, C35
 //@   def hs() []string = h.Header["Authorization"]
 //@   def bearer(k int) bool = hasPrefix(hs()[k], "Bearer ")
 //@   def rest(k int) string = hs()[k][7:]
